@@ -45,7 +45,7 @@ Proof. exact P_Lz5.lz5_initial_ring. Qed.
 
 (* -lzs-: the same for the 2 KiB ring of spaces written from position 2048-17,
    copies of 2..17 bytes.  (Trailing bytes must be bytes: the model's input type
-   would otherwise admit values above 255, which no uint8_t can hold.) *)
+   would otherwise allow values above 255, which no uint8_t can hold.) *)
 Theorem lzs_roundtrip : forall cmds tail s0 ks os d',
   forallb lzs_wf_cmd cmds = true -> Forall (fun b => b < 256) tail -> lzs_init = Ok s0 ->
   let src := {| src_data := lzs_serialise cmds ++ tail; src_chunks := [] |} in
